@@ -52,13 +52,18 @@ def _hist(rng):
     return dict(kind='hist', evs=evs)
 
 
-TIMEQ = ['getTimes', 'getTimes_bounds', 'getTimes_tb', 'getTimes_tflag', 'getTimes_tau0', 'getTimes_dt64',
+TIMEQ = ['getTimes', 'getTimes_bounds', 'getTimes_tb', 'getTimes_tflag', 'getTimes_tflag0', 'getTimes_tau0', 'getTimes_dt64',
          'time2t_nearest', 'time2t_bounds', 'time2t_bounds_close']
 QUERIES = TIMEQ + ['val2idx_nearest', 'val2idx_bounds', 'val2idx_exact', 'repr', 'save', 'slice_dim', 'getvarpnc',
            'pncrename', 'eval_bare', 'eval_expr', 'eval_chain', 'eval_chain_assign',
            # results that could be views: an index / asarray of an input, a scalar variable, a variable only the left
            # operand of an operator has; an argument file whose coordinate variable is the target of an interpolation
-           'eval_view', 'eval_asarray', 'eval_scalar', 'binop_leftonly', 'interp_other']
+           'eval_view', 'eval_asarray', 'eval_scalar', 'binop_leftonly', 'interp_other',
+           # statements that write into a variable ('A += 1', 'A[...] = 5') with inplace=False; the expression front end
+           # pncexpr (bare name, view, augmented assignment; closing its result is not closing the input); a data dump of a
+           # masked-type variable that holds NaN / inf next to no missing cell; time flags of time-independent data (0, 0)
+           'eval_aug', 'eval_setitem', 'pncexpr_bare', 'pncexpr_view', 'pncexpr_aug', 'pncexpr_close', 'dump_nan',
+           'getTimes_tflag0']
 
 
 def _pure(rng):
@@ -99,7 +104,8 @@ def gen(rng, tier):
     for i in range(n):
         out.append(_hist(rng) if i % 3 == 0 else (_iopure(rng) if i % 3 == 1 and i % 2 == 0 else _pure(rng)))
     # queries on receivers opened from disk whose variables have missing values (save, repr, variable extraction, eval)
-    for q in (['query', 'save'], ['query', 'save'], ['query', 'repr'], ['query', 'getvarpnc'], ['query', 'eval_expr'], ['copy']):
+    for q in (['query', 'save'], ['query', 'save'], ['query', 'repr'], ['query', 'getvarpnc'], ['query', 'eval_expr'], ['copy'],
+              ['query', 'pncexpr_close'], ['query', 'pncexpr_close'], ['query', 'pncexpr_bare']):
         spec = pfile.gen_file(rng, maxlen=3, masked_prob=0.8, scalar_prob=0.0)
         for v in spec['vars']:
             if v['dtype'] == 'f':
@@ -211,6 +217,13 @@ def _query(f, q, spec):
         if q == 'getTimes_dt64':
             f.getTimes(datetype='datetime64[s]')
             return None
+        if q == 'getTimes_tflag0':
+            for b_ in (False, True):
+                try:
+                    f.getTimes(bounds=b_)       # a year-0 date may well be refused; the flags are not the place to repair it
+                except Exception:
+                    pass
+            return None
         ts = f.getTimes()
         if q in ('getTimes_bounds', 'getTimes_tb', 'getTimes_tflag', 'getTimes_tau0'):
             f.getTimes(bounds=True)
@@ -273,6 +286,34 @@ def _query(f, q, spec):
         if not ks:
             return None
         return f.eval('NEWVAR = %s' % ({'eval_view': '%s[:]', 'eval_asarray': 'np.asarray(%s)'}[q] % ks[0]))
+    if q in ('eval_aug', 'eval_setitem', 'pncexpr_bare', 'pncexpr_view', 'pncexpr_aug', 'pncexpr_close'):
+        ks = [k for k in f.variables if k not in coords and f.variables[k].ndim > 0 and k.isidentifier()]
+        if not ks:
+            return None
+        k = ks[0]
+        if q == 'eval_aug':
+            return f.eval('%s += 1' % k)
+        if q == 'eval_setitem':
+            return f.eval('%s[...] = 5; NEWVAR = %s * 1' % (k, k))
+        # the result of pncexpr is a wrapper around the input (its other variables ARE the input's): only what the
+        # expression assigned is a result
+        if q == 'pncexpr_bare':
+            return F.pncexpr('NEWVAR = %s' % k, f), ['NEWVAR']
+        if q == 'pncexpr_view':
+            return F.pncexpr('NEWVAR = %s[:]' % k, f), ['NEWVAR']
+        if q == 'pncexpr_aug':
+            return F.pncexpr('%s += 1' % k, f), [k]
+        g = F.pncexpr('NEWVAR = %s[:] * 2' % k, f)
+        g.close()
+        return None
+    if q == 'dump_nan':
+        import io
+        from PseudoNetCDF.pncdump import pncdump
+        try:
+            pncdump(f, outfile=io.StringIO())
+        except SystemExit:
+            pass        # the dump helper leaves through exit() when a write fails
+        return None
     if q == 'eval_scalar':
         ks = [k for k in f.variables if f.variables[k].ndim == 0]
         if not ks:
@@ -330,7 +371,13 @@ def _impl(case):
     if case['op'][0] == 'query' and case['op'][1] in TIMEQ:
         q = case['op'][1]
         d0, n0 = spec['dims'][0][0], spec['dims'][0][1]
-        if q == 'getTimes_tflag':
+        if q in ('getTimes_tflag0',):
+            f.createDimension('VAR', 2)
+            f.createDimension('DATE-TIME', 2)
+            tv = f.createVariable('TFLAG', 'i', (d0, 'VAR', 'DATE-TIME'))
+            tv[:] = 0
+            f.TSTEP = 0
+        elif q == 'getTimes_tflag':
             f.createDimension('VAR', 1)
             f.createDimension('DATE-TIME', 2)
             tv = f.createVariable('TFLAG', 'i', (d0, 'VAR', 'DATE-TIME'))
@@ -354,6 +401,16 @@ def _impl(case):
                 tb.units = tv.units
                 tb[:, 0] = tv[:] - 3
                 tb[:, 1] = tv[:] + 3
+    if case['op'][0] == 'query' and case['op'][1] == 'dump_nan':
+        d0, n0 = spec['dims'][0][0], spec['dims'][0][1]
+        if 'nn' not in f.dimensions:
+            f.createDimension('nn', 3)
+        nv = f.createVariable('NANV', 'd', (d0, 'nn'), fill_value=-999.)
+        vals = np.arange(n0 * 3, dtype='d').reshape(n0, 3)
+        if n0:
+            vals[0, 1] = np.nan
+            vals[-1, 2] = np.inf
+        nv[...] = np.ma.masked_array(vals, mask=False)
     dpath = None
     if case.get('disk'):
         import tempfile
@@ -400,8 +457,11 @@ def _impl_pure(case, spec, f):
     with lib.pnc_warnings():
         try:
             with np.errstate(all='ignore'):
+                only = None
                 if case['op'][0] == 'query':
                     g = _query(f, case['op'][1], spec)
+                    if isinstance(g, tuple):
+                        g, only = g
                 else:
                     g = c01._apply(f, case['op'])
         except lib.HarnessError:
@@ -415,7 +475,8 @@ def _impl_pure(case, spec, f):
         res['same_object'] = True
     if g is not None and g is not f:
         res['nvars'] = len(g.variables)
-        for k in g.variables:
+        gkeys = [k for k in g.variables if only is None or k in only]
+        for k in gkeys:
             for k2 in f.variables:
                 try:
                     if np.shares_memory(np.ma.getdata(g.variables[k][...]), np.ma.getdata(f.variables[k2][...])):
@@ -423,7 +484,7 @@ def _impl_pure(case, spec, f):
                 except Exception:
                     pass
         # write into every output variable, then look at the input again
-        for k in g.variables:
+        for k in gkeys:
             v = g.variables[k]
             try:
                 if v.ndim == 0:
@@ -433,7 +494,7 @@ def _impl_pure(case, spec, f):
             except Exception:
                 pass
         # ... and into its dimensions (marking a record dimension before saving)
-        for dk in list(g.dimensions):
+        for dk in (list(g.dimensions) if only is None else []):
             try:
                 dd = g.dimensions[dk]
                 dd.setunlimited(not dd.isunlimited())
